@@ -241,7 +241,91 @@ fn case_executor(run: usize, gen: &mut Gen, out: &mut Out) {
     out.emit(&json!({"t": "txn", "run": run, "shards": 0, "level": "executor", "wtype": wtype, "steps": steps, "s": s}));
 }
 
+/// WATCH at its edges: the watched key changes only because its deadline passes (real time, no command
+/// touches it in between), or it holds a value far larger than the usual payloads and is or is not
+/// modified.  The rule (ConnTrace!WatchCaseVerdict) needs only: changed?, EXEC's reply, body applied?
+async fn wcase(run: usize, gen: &mut Gen, out: &mut Out) {
+    let shards = [1usize, 4, 2][run % 3];
+    let state = ShardedActorState::with_config(ShardConfig::with_shards(shards));
+    let mut a = Client::connect(&state);
+    let mut bc = Client::connect(&state);
+    let kind = ["ttl", "big", "ttl", "big", "ttl_long"][run % 5];
+    let mut detail = json!({});
+    let changed;
+    // a second watched key on (possibly) another shard in some cases
+    let extra = gen.rng.gen_bool(0.3);
+    let mut wargv = vec![b("WATCH"), b("w")];
+    if extra {
+        wargv.push(b("other"));
+    }
+    match kind {
+        "ttl" | "ttl_long" => {
+            let ttl: u64 = if kind == "ttl" { [25u64, 40, 60][gen.rng.gen_range(0..3)] } else { 600_000 };
+            let how = gen.rng.gen_range(0..3);
+            match how {
+                0 => { bc.call(&vec![b("SET"), b("w"), b("v0"), b("PX"), b(&ttl.to_string())]).await; }
+                1 => { bc.call(&vec![b("SET"), b("w"), b("v0")]).await; bc.call(&vec![b("PEXPIRE"), b("w"), b(&ttl.to_string())]).await; }
+                _ => { bc.call(&vec![b("RPUSH"), b("w"), b("a")]).await; bc.call(&vec![b("PEXPIRE"), b("w"), b(&ttl.to_string())]).await; }
+            }
+            a.call(&wargv).await;
+            let between = gen.rng.gen_range(0..4);
+            if between == 3 {
+                a.call(&vec![b("MULTI")]).await;
+            }
+            tokio::time::sleep(std::time::Duration::from_millis(if kind == "ttl" { ttl + 80 } else { 30 })).await;
+            match between {
+                1 => { bc.call(&vec![b("GET"), b("w")]).await; }      // another client's plain read of the key
+                2 => { bc.call(&vec![b("SET"), b("unrelated"), b("1")]).await; }
+                _ => {}
+            }
+            if between != 3 {
+                a.call(&vec![b("MULTI")]).await;
+            }
+            changed = kind == "ttl";
+            detail = json!({"ttl": ttl, "set_how": how, "between": between, "shards": shards, "extra": extra});
+        }
+        _ => {
+            let size = [1usize << 20, (1 << 20) + 1, 2_100_000, 70_000, (1 << 20) - 1, 5 << 20][gen.rng.gen_range(0..6)];
+            let payload: Vec<u8> = (0..size).map(|i| b'a' + ((i * 7 + i / 251) % 23) as u8).collect();
+            bc.call(&vec![b("SET"), b("w"), payload.clone()]).await;
+            a.call(&wargv).await;
+            let act = gen.rng.gen_range(0..6);
+            changed = match act {
+                0 | 1 => false,
+                2 => { bc.call(&vec![b("SET"), b("unrelated"), b("1")]).await; false }
+                3 => { bc.call(&vec![b("APPEND"), b("w"), b("z")]).await; true }
+                4 => { bc.call(&vec![b("SETRANGE"), b("w"), b(&(size / 2).to_string()), b("#")]).await; true }
+                _ => { bc.call(&vec![b("SET"), b("w"), payload.clone()]).await; false }   // the same value again
+            };
+            a.call(&vec![b("MULTI")]).await;
+            detail = json!({"size": size, "act": act, "shards": shards, "extra": extra});
+        }
+    }
+    a.call(&vec![b("SET"), b("x"), b("applied")]).await;
+    a.call(&vec![b("INCR"), b("n")]).await;
+    let exec = a.call(&vec![b("EXEC")]).await;
+    let x = bc.call(&vec![b("GET"), b("x")]).await;
+    let n = bc.call(&vec![b("GET"), b("n")]).await;
+    let applied_x = matches!(&x, RespValue::BulkString(Some(v)) if v == b"applied");
+    let applied_n = matches!(&n, RespValue::BulkString(Some(v)) if v == b"1");
+    out.emit(&json!({"t": "wcase", "run": run, "kind": kind, "changed": changed, "exec": rv_json(&exec),
+                     "applied": applied_x || applied_n, "applied_all": applied_x && applied_n, "detail": detail}));
+}
+
 pub fn main(a: &Args, rt: &tokio::runtime::Runtime, gen: &mut Gen, out: &mut Out) -> i32 {
+    if a.get("level") == Some("wcase") {
+        for i in 0..a.usize("n", 60) {
+            let mut tmp = Out::create("/dev/null");
+            std::mem::swap(out, &mut tmp);
+            let mut o = tmp;
+            let r = catch(|| rt.block_on(wcase(i + 1, gen, &mut o)));
+            if let Err(p) = r {
+                o.emit(&json!({"t": "wcase", "run": i + 1, "panic": p}));
+            }
+            std::mem::swap(out, &mut o);
+        }
+        return 0;
+    }
     if a.get("level") == Some("executor") {
         for i in 0..a.usize("n", 200) {
             let mut tmp = Out::create("/dev/null");
